@@ -401,6 +401,62 @@ Section Proofs.
   Lemma safe_run ls : SafeInv (prun k sc (pinit srcs) ls).
   Proof. apply prun_inv; [intros; eapply safe_step; eassumption|apply safe_init]. Qed.
 
+  (** ** redelivery: a Nacked attempt that was not yet followed by another attempt of the same
+      message at the same stage still has its publication pending *)
+  Lemma unfollowed_snoc dl dn :
+    unfollowed eqbM (dl ++ [dn]) =
+    filter (fun d => negb (same_pub eqbM d dn)) (unfollowed eqbM dl)
+    ++ (if is_acked (d_final dn) then [] else [dn]).
+  Proof.
+    induction dl as [|d dl IH]; simpl.
+    - destruct (is_acked (d_final dn)); reflexivity.
+    - rewrite IH, existsb_app. simpl. rewrite orb_false_r.
+      destruct (negb (is_acked (d_final d))); simpl; [|reflexivity].
+      destruct (existsb (same_pub eqbM d) dl); simpl; [reflexivity|].
+      destruct (same_pub eqbM d dn); reflexivity.
+  Qed.
+
+  Definition RedelInv (st : pstate) : Prop :=
+    forall d, In d (unfollowed eqbM (dlog st)) -> In (d_msg d) (topic st (d_stage d)).
+
+  Lemma redel_init : RedelInv (pinit srcs).
+  Proof. intros d []. Qed.
+
+  Lemma redel_step st l st' : RedelInv st -> pstep k sc st l = Some st' -> RedelInv st'.
+  Proof.
+    intros HR H. destruct l as [s m].
+    apply pstep_inv in H as (Hs & rest & Hr & ->). cbv zeta.
+    set (f := sc s (calls st s)). set (w := stage_w f (hf s m)). set (fwd := stage_fwd f (hf s m)).
+    destruct (remove_first_spec _ _ _ Hr) as (a & b & Ea & Eb).
+    intros d. cbn [dlog topic]. rewrite unfollowed_snoc. cbn [d_final].
+    intros Hin. apply in_app_or in Hin as [Hin|Hin].
+    - apply filter_In in Hin as [Hin Hsame]. specialize (HR d Hin).
+      rewrite topics_after_at. destruct (Nat.eqb (d_stage d) (S s)) eqn:E1.
+      + apply Nat.eqb_eq in E1. rewrite E1 in HR. apply in_or_app. now left.
+      + destruct (Nat.eqb (d_stage d) s && is_acked w) eqn:E2; [|exact HR].
+        apply andb_true_iff in E2 as [E2 _]. apply Nat.eqb_eq in E2. rewrite E2 in HR.
+        unfold same_pub in Hsame. cbn [d_stage d_msg] in Hsame.
+        rewrite E2, Nat.eqb_refl in Hsame. simpl in Hsame.
+        assert (Hne : d_msg d <> m).
+        { intros E. rewrite E, eqbM_refl in Hsame. discriminate. }
+        rewrite Ea in HR. subst rest.
+        apply in_app_or in HR as [HR|[HR|HR]]; [apply in_or_app; now left|congruence|apply in_or_app; now right].
+    - fold w in Hin. destruct (is_acked w) eqn:Ea'; [destruct Hin|].
+      destruct Hin as [<-|[]]. cbn [d_msg d_stage]. rewrite topics_after_at.
+      replace (Nat.eqb s (S s)) with false by (symmetry; apply Nat.eqb_neq; lia).
+      rewrite Ea', andb_false_r. rewrite Ea. apply in_or_app. right. now left.
+  Qed.
+
+  Lemma redel_run ls : RedelInv (prun k sc (pinit srcs) ls).
+  Proof. apply prun_inv; [intros; eapply redel_step; eassumption|apply redel_init]. Qed.
+
+  Lemma unfollowed_incl dl d : In d (unfollowed eqbM dl) -> In d dl.
+  Proof.
+    induction dl as [|x dl IH]; simpl; [tauto|]. intros H. apply in_app_or in H as [H|H].
+    - destruct (negb _ && negb _); [|destruct H]. destruct H as [<-|[]]. now left.
+    - right. now apply IH.
+  Qed.
+
   (** ** never lost: every expected arrival is at the final topic or has a live ancestor *)
   Definition covered (st : pstate) (y : M) : Prop :=
     In y (topic st k)
